@@ -205,12 +205,17 @@ def dec(h):
     return [(math.inf if v == "inf" else (-math.inf if v == "-inf" else v), t) for v, t in h]
 
 
-def check_combine(ctx, DP, h1, h2, merge, retention, comb):
+def check_combine(ctx, DP, h1, h2, merge, retention, comb, retention2=None):
+    """``retention2``: retention policy of the right operand when it differs from the left one's (an ANY entry combined
+    with an entry that retains all of its tied tags): the result follows the left operand's policies and is still the
+    optimum over ALL pairs of retained candidates."""
     case = {"kind": "combine", "h1": [list(h) for h in h1], "h2": [list(h) for h in h2], "merge": merge, "retention": retention, "comb": comb}
+    if retention2:
+        case["retention2"] = retention2
     mp = getattr(DP.MergePolicy, merge)
     rp = getattr(DP.RetentionPolicy, retention)
     h1, h2 = dec(h1), dec(h2)
-    e1, e2 = DP.Entry(mp, rp), DP.Entry(mp, rp)
+    e1, e2 = DP.Entry(mp, rp), DP.Entry(mp, getattr(DP.RetentionPolicy, retention2) if retention2 else rp)
     e1.update(*[DP.Candidate(v, t) for v, t in h1])
     e2.update(*[DP.Candidate(v, t) for v, t in h2])
     f = COMBINATORS[comb](DP)
@@ -552,6 +557,15 @@ def run(ctx, spec):
         check_combine(ctx, DP, h1, h2, merge, retention, rng.choice(["sum", "sum_plus_tag", "max_notag", "clip", "clip"]))
     for k in range(20):
         check_defaults(ctx, DP, [rng.choice(VALUES) for _ in range(3)], k)
+    # operands with different retention policies (ANY x ALL, ALL x ANY, NONE x ALL), tag-dependent combinators
+    for k in range(300 if ctx.tier == "quick" else 5000):
+        merge = "MIN" if k % 2 else "MAX"
+        r1, r2 = [("ANY", "ALL"), ("ALL", "ANY"), ("ANY", "ALL"), ("NONE", "ALL")][k % 4]
+        v1, v2 = rng.choice(VALUES), rng.choice(VALUES)
+        h1 = [(v1, t) for t in rng.sample(["a", "b", "c"], rng.randint(1, 3))]
+        h2 = [(v2, t) for t in rng.sample(["a", "b", "c", "d"], rng.randint(1, 4))]
+        ctx.count("mon.combine_mixed_policies")
+        check_combine(ctx, DP, h1, h2, merge, r1, rng.choice(["sum_plus_tag", "diff", "sum_plus_tag"]), retention2=r2)
     # aliasing: entries built explicitly from a live tag set
     for k in range(240 if ctx.tier == "quick" else 4000):
         merge, retention = ("MIN", "ALL") if k % 3 else rng.choice([("MAX", "ALL"), ("MIN", "ANY"), ("MAX", "ANY")])
@@ -632,6 +646,8 @@ def replay(ctx, case):
                    [(tuple(k), r) for k, r in case.get("held", [])])
     elif case["kind"] == "proxy_combine":
         check_proxy_combine(ctx, DP, [tuple(h) for h in case["h1"]], [tuple(h) for h in case["h2"]], case["merge"], case["retention"], case["comb"], case["k"])
+    elif case["kind"] == "combine" and case.get("retention2"):
+        check_combine(ctx, DP, [tuple(h) for h in case["h1"]], [tuple(h) for h in case["h2"]], case["merge"], case["retention"], case["comb"], retention2=case["retention2"])
     elif case["kind"] == "combine":
         check_combine(ctx, DP, [tuple(h) for h in case["h1"]], [tuple(h) for h in case["h2"]], case["merge"], case["retention"], case["comb"])
     else:
